@@ -1432,6 +1432,37 @@ func (v *FnVC) Generate() (err error) {
 
 type vcError string
 
+// conjuncts splits a contract expression at its top-level &&.
+func conjuncts(e Expr) []Expr {
+	if b, ok := e.(*EBinary); ok && b.Op == "&&" {
+		return append(conjuncts(b.X), conjuncts(b.Y)...)
+	}
+	return []Expr{e}
+}
+
+// evalInvariant evaluates a loop invariant conjunct by conjunct. A conjunct that names an identifier which no longer
+// exists in the function (a renamed or removed local) is dropped with a note: invariants are proof hints, a weaker
+// invariant can only make obligations undecided, never discharge one wrongly. The same conjuncts are dropped where
+// the invariant is assumed and where it is an obligation (same name resolution at the loop header).
+func (v *FnVC) evalInvariant(c *Clause, env *Env) string {
+	var parts []string
+	for _, cj := range conjuncts(c.E) {
+		f, ok := v.tryEvalBool(cj, env)
+		if !ok {
+			v.note("loop invariant conjunct dropped in %s (it names an identifier that does not exist in the function any more): %s", v.fnName(), cj.String())
+			continue
+		}
+		parts = append(parts, f)
+	}
+	switch len(parts) {
+	case 0:
+		return "true"
+	case 1:
+		return parts[0]
+	}
+	return "(and " + strings.Join(parts, " ") + ")"
+}
+
 func (v *FnVC) fail(f string, a ...interface{}) {
 	panic(vcError(fmt.Sprintf(f, a...)))
 }
@@ -1570,7 +1601,7 @@ func (v *FnVC) loopHeader(b *ssa.BasicBlock, li *LoopInfo, entryPreds []*ssa.Bas
 			continue
 		}
 		env := v.loopEnv(b, li, func(p *ssa.Phi) Term { return entryVals[p] })
-		f := v.evalBool(c.E, env)
+		f := v.evalInvariant(c, env)
 		o := v.oblige(fmt.Sprintf("loop%d-inv-entry", li.Ordinal), f, "invariant holds on loop entry: "+c.Text, b.Instrs[0].Pos())
 		_ = o
 	}
@@ -1674,7 +1705,7 @@ func (v *FnVC) loopHeader(b *ssa.BasicBlock, li *LoopInfo, entryPreds []*ssa.Bas
 			continue
 		}
 		env := v.loopEnv(b, li, nil)
-		f := v.evalBool(c.E, env)
+		f := v.evalInvariant(c, env)
 		// narrows what follows the header; a global assumption would make the entry obligations vacuous
 		// whenever the invariant is contradictory
 		v.narrow(f)
@@ -1705,7 +1736,7 @@ func (v *FnVC) atBackEdge(p, h *ssa.BasicBlock, cond string) {
 		env := v.loopEnv(h, li, func(phi *ssa.Phi) Term { return v.val(phi.Edges[predIdx]) })
 		switch c.Kind {
 		case "invariant":
-			f := v.evalBool(c.E, env)
+			f := v.evalInvariant(c, env)
 			o := v.oblige(fmt.Sprintf("loop%d-inv-preserved", li.Ordinal), f, "invariant preserved by loop body: "+c.Text, h.Instrs[0].Pos())
 			o.Guard = g
 		case "decreases":
